@@ -406,7 +406,8 @@ func TestVerifC12Suppress(t *testing.T) {
 		for i := 0; i < n; i++ {
 			c12sRun(t, rec, stats, c12sRandom(rng), i)
 		}
-		if stats.writes == 0 || stats.sameNodes == 0 || stats.nonUniformOld == 0 {
+		// inputs only: what the code wrote is for TLC to judge
+		if stats.calls == 0 || stats.sameNodes == 0 || stats.nonUniformOld == 0 {
 			t.Fatalf("c12s: vacuous run %+v", *stats)
 		}
 	}
